@@ -42,14 +42,18 @@ def prepare(hists):
     impl2, _ = vlib.run_sessions(second, 'C05_abs2')
     PAIRS.clear()
     for hi, r in zip(idx, impl2):
-        PAIRS[hi] = r[-1] if r else ''
+        PAIRS[hi] = (r[-1] if r else '', r[-2] if len(r) > 1 else '')
     prepare.hists = hists
 
 
 def judge(req, impl, f, prev, hi, i):
     h = prepare.hists[hi]
     if i == len(h) - 1 and hi in PAIRS:
-        other = PAIRS[hi]
+        other, other_prev = PAIRS[hi]
+        # the two runs are separate executions: a prefix containing a multi-entry call whose effect depends on the
+        # hash iteration order may leave different pre-states; then the pair says nothing about abs
+        if prev and ' ## ' in prev and ' ## ' in other_prev and prev.split(' ## ', 1)[1] != other_prev.split(' ## ', 1)[1]:
+            return None
         if other != impl and vlib.cmp_line(req, impl, other) == 'mismatch':
             # path-valued results name the same location; the error payload is not compared
             return (other, 'the call with a respelled path differs (result or state) from the call with abs(path)')
